@@ -372,6 +372,22 @@ class Ctx:
     # -------------------------------------------------------------------------------
     # Direction B: events recorded from the real code, validated by TLC against Exp
     # -------------------------------------------------------------------------------
+    def driver_exception(self, ex, label):
+        """An exception that came out of the LIBRARY while a driver was preparing valid inputs (packing a legal unit, ...):
+        a deviation of the library - reported as a violation; the events produced so far are still validated."""
+        import traceback
+        repo = os.path.abspath(os.environ.get("VERIF_REPO", "/repo")) + os.sep
+        frames = traceback.extract_tb(ex.__traceback__)
+        lib = [f for f in frames if os.path.abspath(f.filename).startswith(repo)]
+        if not lib:
+            raise ex
+        last = lib[-1]
+        self.violation(f"driver/{type(ex).__name__}/{os.path.basename(last.filename)}:{last.name}",
+                       f"{label}: the library raised {type(ex).__name__}: {ex} in {os.path.basename(last.filename)}:{last.lineno} "
+                       f"({last.name}) while the driver was preparing valid inputs; the remaining inputs of this stage were not generated",
+                       {"kind": "driver-exception", "exception": type(ex).__name__, "message": str(ex)[:300],
+                        "traceback": [f"{os.path.basename(f.filename)}:{f.lineno}:{f.name}" for f in frames][-12:]})
+
     def validate_events(self, events, label, classify=None, module="TraceCodec", shard=5000):
         """events: iterable of {"op","a","o"} recorded from the real code; ids are assigned
         here. The stream is cut into shards that TLC validates in parallel while the driver
@@ -433,7 +449,17 @@ class Ctx:
             f = None
             n_in = 0
             def with_side(it):
-                for x in it:
+                it = iter(it)
+                while True:
+                    try:
+                        x = next(it)
+                    except StopIteration:
+                        return
+                    except MachineryError:
+                        raise
+                    except Exception as ex:  # noqa - the library raised while the driver prepared valid inputs
+                        self.driver_exception(ex, label)
+                        return
                     yield x
                     while SIDE:
                         yield SIDE.pop(0)
@@ -641,7 +667,19 @@ class Ctx:
         files, cur, curfile = [], 0, None
         total = 0
         idx = {}
-        for e in events:
+        def guarded_events(it):
+            it = iter(it)
+            while True:
+                try:
+                    yield next(it)
+                except StopIteration:
+                    return
+                except MachineryError:
+                    raise
+                except Exception as ex:  # noqa
+                    self.driver_exception(ex, label)
+                    return
+        for e in guarded_events(events):
             if curfile is None or (e["op"] == "init" and cur >= shard):
                 if curfile:
                     curfile.close()
